@@ -172,3 +172,15 @@ Proof.
 Qed.
 
 End Patterns.
+
+(* ---- the offset validation of resize_array ---- *)
+Lemma resize1_valid {T} `{Num T} m d c cast (arr : list T) n_out off :
+  offset_invalid (Z.of_nat (length arr)) (Z.of_nat n_out) off = false ->
+  resize1 m d c cast arr n_out off = resize1_core m d c cast arr n_out off.
+Proof. intros E; unfold resize1; now rewrite E. Qed.
+
+Ltac offv :=
+  unfold offset_invalid; rewrite ?app_length;
+  apply andb_false_iff;
+  first [ left; apply negb_false_iff; apply Z.eqb_eq; lia
+        | right; apply negb_false_iff; apply andb_true_iff; split; apply Z.leb_le; lia ].
